@@ -231,6 +231,10 @@ func (propC16) Run(scI interface{}) *Outcome {
 	srcs[twinBase] = "twin-plain {{ 1 + 1 }}"
 	srcs[twinBase+".twig"] = "twin-suffixed {{ 2 + 2 }}"
 	mainName := flat(sc.Prog.Main)
+	if sc.WorldSeed%5 == 0 {
+		// a source that starts with a UTF-8 byte-order mark (literal text like any other)
+		srcs[mainName] = "\xef\xbb\xbf" + srcs[mainName]
+	}
 	hubA := &spyHub{per: []*Spies{newSpies()}}
 	A := twig.New()
 	installSpies(A, hubA)
@@ -246,6 +250,9 @@ func (propC16) Run(scI interface{}) *Outcome {
 		if err := A.RegisterString(n, srcs[n]); err == nil {
 			names = append(names, n)
 		}
+	}
+	if sc.WorldSeed%7 == 0 {
+		w.AdvanceClock(-7200e9) // the clock steps back: templates now carry a LastModified later than their CompileTime
 	}
 	// compile + serialise everything back-to-back, keep all slices
 	type ser struct {
